@@ -2,7 +2,7 @@
 # usage: tools/confirm_seed.sh <Cxx> <out_dir with patch.diff, demo.py> [checks to run, default the property itself] 
 # Confirms a seeded defect independently: patch applies to /repo HEAD, repository suite still passes (3 baseline failures),
 # demo fails with / passes without the patch, and runs the given quick checks against the patched scratch worktree.
-ID="$1"; OUT="$2"; shift 2; CHECKS="${@:-$ID}"
+ID="$1"; OUT="$(realpath $2)"; shift 2; CHECKS="${@:-$ID}"
 WT=/tmp/cf_$ID
 git -C /repo worktree remove --force $WT 2>/dev/null
 git -C /repo worktree add -q --detach $WT HEAD || exit 2
